@@ -472,6 +472,18 @@ fn one_case(prop: &str, g: &mut Gen, cx: &mut Ctx) {
             if is("C10") {
             cx.check(s.is_none() == (j == I32_MAX) && s.map_or(true, |x| x == cal.at_jdn(ji + 1)), || format!("{ct} succ of {j}: {s:?}"));
             cx.check(p.is_none() == (j == I32_MIN) && p.map_or(true, |x| x == cal.at_jdn(ji - 1)), || format!("{ct} pred of {j}: {p:?}"));
+                if g.rng.chance(1, 3) {
+                    // stepping from the date of day j however it was obtained (conversion from another
+                    // calendar, parsing, month iteration, the boundary accessors, …)
+                    for (name, x) in producers(&cal, ji, g) {
+                        let want_s = (j < I32_MAX).then(|| cal.at_jdn(ji + 1));
+                        let want_p = (j > I32_MIN).then(|| cal.at_jdn(ji - 1));
+                        cx.check(x.succ() == want_s && x.later().next() == want_s && x.and_later().nth(1) == want_s,
+                            || format!("{ct} day {j} via {name}: stepping forward gives {:?} / {:?}, expected {want_s:?}", x.succ(), x.later().next()));
+                        cx.check(x.pred() == want_p && x.earlier().next() == want_p && x.and_earlier().nth(1) == want_p,
+                            || format!("{ct} day {j} via {name}: stepping back gives {:?} / {:?}, expected {want_p:?}", x.pred(), x.earlier().next()));
+                    }
+                }
             }
             let n = g.rng.below(20) as usize;
             let mut expect = j;
